@@ -53,7 +53,7 @@ let run (cases : case list) =
         | ["rscript"; s] -> Some (ORScript (parse_script s))
         | ["wscript"; s] -> Some (OWScript (parse_script s))
         | ["wire"] -> None
-        | ["smallbuf"] -> None
+        | ["smallbuf"] | ["peeroob"] -> None
         | _ -> failwith ("rw: bad op " ^ op)) in
       if !agree then begin
         let before = List.length !st.rws_log in
